@@ -75,6 +75,21 @@ CHECKS = {
    text="The clauses of the sequential-effect property that are visible in the code's shape are decided: the subtree relation goes through a boundary-aware helper whose body is checked, the Get filter ends in an element boundary, writes inside map ranges of the change pipeline are keyed by the iteration's own key (this one fails today: known finding F7), tombstones are filtered on read, and the store's persist decision table is complete. Equality with a reference model over histories is not decided.",
    note="Trusted: go/types, occheck rules. The raw-prefix defects (cascade, pruning, Get filter) found here were repaired (fix commits 2029c13, 3279374). Known finding F7 (map-order dependent merge) is listed with 7 construct keys.",
    ref="DESIGN.md §3 C03"),
+ "C16": dict(
+   technique="API-uniformity lint over resolved calls (one tokenizer for textual paths), extraction and comparison of the renderer's escape set and the parser's structural runes, must-precede (sort before the key loop)",
+   text="A textual path is shown to be cut on '/' only by the bracket- and escape-aware tokenizer (one exempted, guarded idiom); the rune constants the renderer escapes are shown to be the ones the splitter and key parser stop at, with backslash as the escape on both sides; keys are shown to be rendered from a sorted slice; GetParentPath is shown to go through the tokenizer. Round trip and injectivity as such are not decided.",
+   note="Trusted: go/types, occheck rules. The two raw-'/' cuts found here were repaired (fix commit 395fe09). Not covered: escaping of key names / '[' in names (not needed for YANG identifiers).",
+   ref="DESIGN.md §3 C16"),
+ "C17": dict(
+   technique="extraction and comparison of the writer/reader case tables (type switch and value switch), finite evaluation of the RFC 7951 width rule on enumerated paths, narrowing-conversion scan under the build's type sizes, v2/v3 sibling fingerprints",
+   text="Every value kind the gNMI-to-native writer can produce is shown to be an explicit case of both readers, and the oneof written back for a kind to be the one the writer maps to it (scalars and leaf-list elements); unsupported kinds are shown to be refused; the JSON width rule is evaluated on every rendering path; narrowing conversions are limited to the listed, bounded ones; the v2 and v3 copies are shown to be the same statements. Digits and byte equality are not decided.",
+   note="Trusted: go/types, occheck rules, the onos-api constructor-to-kind naming table. Not covered: behaviour of onos-api typed values (including the NaN precondition, which C12 covers).",
+   ref="DESIGN.md §3 C17"),
+ "C18": dict(
+   technique="path-relation lint (shared with C03), v2/v3 sibling fingerprints, guard conditions of the list-entry reuse on enumerated paths, comparator extraction",
+   text="The thinnest claim: pruning is shown to use the boundary-aware subtree helper, the two tree packages to be the same statements, and the three facts the list-entry argument rests on (append iff not all keys matched, mismatch resets and continues, input sorted by Path) to hold on every path. That the tree contains exactly the given leaves for all inputs is not decided.",
+   note="Trusted: go/types, occheck rules. The pruning defects found were repaired (fix commit 2029c13).",
+   ref="DESIGN.md §3 C18"),
 }
 
 def main():
